@@ -414,6 +414,8 @@ def _w_reset(cs, ic, ps, weather, crop):
     tr.n["reset"] += 1
     pre = dict(th=np.array(ic.th, dtype=float), pond=float(ic.surface_storage))
     r = f(cs, ic, ps, weather, crop)
+    if tr.o["digests"]:
+        tr.wdig.append((f"reset@{int(cs.time_step_counter)}", weather_digest(weather)))
     tr.resets.append(dict(t=int(cs.time_step_counter), sc=int(cs.season_counter), pre=pre,
                           th=np.array(r[0].th, dtype=float), pond=float(r[0].surface_storage),
                           off=bool(cs.sim_off_season)))
